@@ -4,8 +4,8 @@
    the next input i; `all_events init ins` / `all_cmds init ins` are the complete logs. *)
 From Coq Require Import ZArith List Bool.
 From Common Require Import Res Str.
-From Audio Require Import Model Spec Mixer
-  Proofs_Run Proofs_State Proofs_Stream Proofs_Tags Proofs_Buffering Proofs_Mixer.
+From Audio Require Import Model Spec Mixer Obs Monitor
+  Proofs_Monitor Proofs_Run Proofs_State Proofs_Stream Proofs_Tags Proofs_Buffering Proofs_Mixer.
 Import ListNotations.
 Open Scope Z_scope.
 
@@ -160,6 +160,13 @@ Theorem C06_T4_get_current_tags_returns_tags : forall w,
 Proof. exact get_current_tags_returns_tags. Qed.
 Print Assumptions C06_T4_get_current_tags_returns_tags.
 
+(* about the code BEFORE repo commit 38eca32 (live dict_keys view): what was sent at stream
+   start and what a consumer read later could differ *)
+Theorem C06_T4_prefix_live_view_refuted :
+  exists pre rest, sent_keys pre <> late_view_keys pre rest.
+Proof. exact prefix_live_view_refuted. Qed.
+Print Assumptions C06_T4_prefix_live_view_refuted.
+
 (* ------------------------------------------------------------------ T5 *)
 
 Theorem C06_T5_buffering_never_overrides : forall ins,
@@ -248,3 +255,12 @@ Theorem C06_T6_integer_division_refuted :
   exists v, 0 <= v <= 100 /\ get_val (f_of_Z (v / 100)) <> v.
 Proof. exact integer_division_refuted. Qed.
 Print Assumptions C06_T6_integer_division_refuted.
+
+(* ------------------------------------------------------------------ monitors *)
+
+(* The boolean monitors the harness evaluates on the implementation's traces inside Coq
+   (T2, T3 and the T5 invariant, built from the same functions as the theorems above) are
+   passed by every run of the model. *)
+Theorem C06_model_passes_monitors : forall ins, monitor_code (ins, model_obs init ins) = 0.
+Proof. exact model_passes_monitors. Qed.
+Print Assumptions C06_model_passes_monitors.
